@@ -160,7 +160,7 @@ func C06(r *explore.Run) {
 // ---------------------------------------------------------------------------
 // C16
 
-var trivia = []string{" ", "\n", "\t ", "/*c*/", " /* c */ ", "--c\n", "#c\n", "//c\n", ""}
+var trivia = []string{" ", "\n", "\t ", "/*c*/", " /* c */ ", "--c\n", "#c\n", "//c\n", "", "\f", "\v", "\r\n", "\u00a0", "\u3000\u0085"}
 
 func caseVariant(s string, k int) string {
 	switch k {
